@@ -133,6 +133,18 @@ pub fn run_case(ctx: &Ctx, case: &Value, tag: usize, rep: &mut Report, mb: &mut 
     let Ok(resp) = ModelBatch::run_raw(&ctx.model_exe, &reqs) else { rep.fail("model", "c07:model-driver", "model driver failed".into(), case.clone()); return; };
     if resp[0] != "ok" { rep.fail("model", "c07:schema-not-understood", format!("Lean validator cannot read the schema: {}", resp[0]), case.clone()); return; }
     let valid: Vec<&JV> = cands.iter().zip(resp.iter().skip(1)).filter(|(_, r)| r.as_str() == "1").map(|(c, _)| c).collect();
+    // keyword-to-IR translation: the IR the code builds for this document (hook verif_intersect), read by the Lean
+    // meaning of IR nodes (`Sch.sat` of model M7), must judge every candidate as the validator S5 judges the document
+    match llguidance::verif::verif_intersect(schema, &json!(true)) {
+        Ok((da, _, _)) if !da.contains("(object)") && !da.contains("(ref)") && !da.contains("(atom ") => {
+            for (c, r) in cands.iter().zip(resp.iter().skip(1)) {
+                if js::max_abs_exp(c) > 400 { continue; }
+                if r == "0" || r == "1" { mb.push(format!("sch sat (pair {da} {})", js::to_sexp(c)), r.clone(), tag); rep.count("ir-meaning.pairs"); }
+            }
+        }
+        Ok(_) => rep.count("ir-meaning.skipped-ref-pattern-or-format"),
+        Err(_) => rep.count("ir-meaning.skipped-error"),
+    }
     // cross-validation of the specification itself (thorough tier): (schema, instance, S5 verdict) triples
     // for an independent validator (python jsonschema), see tools/crosscheck_s5.py
     if let Ok(path) = std::env::var("LLGV_S5_DUMP") {
